@@ -757,6 +757,58 @@ def gen_dag(rnd, n_blocks, prim_only=False, n_regs=0, n_boxes=0, allow_random=Fa
     return assign_wire_scopes(g.plan)
 
 
+def gen_gated(rnd, n_blocks, tier='quick', prim_only=False):
+    """gen_dag plus gated clock domains: one or more top-level wrappers get their own ClockDriver whose enable is a
+    poked 1-bit input (0 on many cycles), a toggling register or a registered copy of an input.  Every gated wrapper
+    is guaranteed to contain a register, a combinational leaf fed from OUTSIDE the domain (a register of the always
+    running root domain), a combinational leaf fed from INSIDE (its own register) and to feed ungated logic downstream.
+    plan['gated'] lists the gated scope paths."""
+    plan = gen_dag(rnd, n_blocks, prim_only=prim_only, n_regs=rnd.randint(1, 4), n_boxes=rnd.randint(1, 3), scope_p=0.6,
+                   tier=tier, max_leaves=12)
+    top = [s for s in plan['scopes'] if '/' not in s['path']]
+    gated = rnd.sample(top, rnd.randint(1, len(top)))
+    extra = []
+
+    def wire(wid, w, inp=False):
+        plan['wires'].append(dict(id=wid, w=w, scope=''))
+        if inp:
+            plan['inputs'].append(wid)
+        return wid
+
+    for k, s in enumerate(gated):
+        box = s['path']
+        en = 'gen%d' % k
+        mode = rnd.choice(['input', 'input', 'toggle', 'delayed'])
+        if mode == 'input':
+            wire(en, 1, True)
+        elif mode == 'toggle':
+            wire(en, 1)
+            wire('gend%d' % k, 1)
+            extra.append(cat_block('gtn%d' % k, 'Not', (1, 1), [en, 'gend%d' % k], ''))
+            extra.append(native_block('gtr%d' % k, 'Reg', dict(d='gend%d' % k, q=en, enable=None, reset=None), {}, ''))
+        else:
+            wire(en, 1)
+            wire('geni%d' % k, 1, True)
+            extra.append(native_block('gtr%d' % k, 'Reg', dict(d='geni%d' % k, q=en, enable=None, reset=None), {}, ''))
+        s['clock'] = dict(name='gck%d' % k, enable=en, mode=mode)
+        w = rnd.choice([1, 3, 4, 8])
+        si, sq, ga, gb, gc, gz = [x + str(k) for x in ('gsi', 'gsq', 'ga', 'gb', 'gc', 'gz')]
+        wire(si, w, True)
+        for x in (sq, ga, gb, gc, gz):
+            wire(x, w)
+        inner = box
+        sub = [t['path'] for t in plan['scopes'] if t['path'].startswith(box + '/')]
+        extra.append(native_block('gsr%d' % k, 'Reg', dict(d=si, q=sq, enable=None, reset=None), dict(reset_value=rnd.randrange(1 << w)), ''))
+        extra.append(cat_block('gin%d' % k, 'Not', (w, w), [sq, ga], rnd.choice([inner] + sub)))       # fed from outside the domain
+        extra.append(native_block('ghr%d' % k, 'Reg', dict(d=ga, q=gb, enable=None, reset=None), {}, inner))  # register of the gated domain
+        extra.append(cat_block('gix%d' % k, 'Xor2', (w,), [gb, sq, gc], inner))                         # fed from inside and outside
+        extra.append(cat_block('gdn%d' % k, 'Xor2', (w,), [ga, sq, gz], ''))                            # ungated logic downstream
+    for blk in extra:
+        plan['blocks'].insert(rnd.randrange(len(plan['blocks']) + 1), blk)
+    plan['gated'] = [s['path'] for s in gated]
+    return assign_wire_scopes(plan)
+
+
 def gen_chain(n, width=1, kind='Not'):
     """n inverters (or buffers) in a row; plan order = dataflow order"""
     g = _Gen(None)
